@@ -1281,7 +1281,7 @@ def approx_cases(ctx):
                 with QUIET:
                     l1 = float(np.ravel(np.asarray(T.likelihood.logd(np.array([float(s1)])), dtype=float))[0])
                     l2 = float(np.ravel(np.asarray(T.likelihood.logd(np.array([float(s2)])), dtype=float))[0])
-                form = "lik_lmrf (fun s => 1 / s) %s %s" % (crmat(D), crvec(x))
+                form = "lik_lmrf (fun s => 1 / s) %s %s" % (crmat(D), crvec([xv - frac(lv) for xv, lv in zip(x, locv)]))    # LMRF.logpdf: D (x - location)
                 tol = Fraction(1, 10 ** 9) * (1 + frac(abs(l1)) + frac(abs(l2)))
                 e2 = "(Rabs (%s %s - %s %s - %s) <= %s)%%R" % (form, cr(s1), form, cr(s2), cr(l1 - l2), cr(tol))
                 cases.append(Case(expr=e2, meta=dict(meta, part="lmrf-form"), cell="approx/%s/%s/lmrf-form" % (bc, iface), kind="ENCLOSURE", tac=ENC_TAC))
